@@ -21,7 +21,7 @@
 //!           node, consistency on the wire; the caller gets success / the error of the last attempt / the ignored
 //!           write exactly as decided, and the rows of the pages that were served;
 //!  liveness: every client future completes (20 s where correct code needs milliseconds).
-use cqlref::retry::{self, Cl, Decision, LoopOutcome, Policy, SessionJudge, Step};
+use cqlref::retry::{self, Cl, LoopOutcome, Policy, SessionJudge, Step};
 use h_mock::retryleg::*;
 use h_mock::sess::ALL_CONSISTENCIES;
 use mockcluster::MockCluster;
@@ -152,7 +152,7 @@ struct Obs {
     result: String,
     nodes_used: usize,
     downgraded: bool,
-    reset_node_revisited: bool,
+    plan_variant: &'static str,
     trace: Value,
 }
 
@@ -251,8 +251,11 @@ async fn run_case(w: &mut World, case: &Case) -> Result<Obs, String> {
             }
         }
     }
-    if frames.len() > N_NODES + bound {
-        v!(format!("frames:{pname}:more-attempts-than-plan-plus-bound"), format!("{} frames for one request; plan length {N_NODES} + same-node bound {bound}", frames.len()));
+    // plan length: the 3 nodes, plus the re-visit of a node that was reset earlier in this request (see below)
+    let revisit = (1..frames.len()).any(|j| (0..j).any(|i| frames[i].node == frames[j].node && frames[j - 1].node != frames[j].node && case.script.get(i).map(|s| s.name == "rst").unwrap_or(false)));
+    let plan_len = N_NODES + usize::from(revisit);
+    if frames.len() > plan_len + bound {
+        v!(format!("frames:{pname}:more-attempts-than-plan-plus-bound"), format!("{} frames for one request; plan length {plan_len} + same-node bound {bound}", frames.len()));
     }
     let same_node = (1..frames.len()).filter(|j| frames[*j].node == frames[j - 1].node).count();
     if same_node > bound {
@@ -288,72 +291,99 @@ async fn run_case(w: &mut World, case: &Case) -> Result<Obs, String> {
     }
 
     // ---- the loop: frames and result = reference interpretation of the decisions taken
+    // Plan model: the 3 nodes. One client-side subtlety is modelled explicitly: DefaultPolicy ends its lazily evaluated
+    // plan with "enabled nodes, alive or not", de-duplicated against the fallback part only. A token-aware first
+    // target whose connection was reset in this very request can therefore come up once more as a 4th target -
+    // without a connection (nothing is sent; if the plan then runs out the caller sees that pool error) or, if the
+    // pool refilled meanwhile, with one (one more attempt, on a node reset earlier in this request). Which of the
+    // three happens is a client-side race, so each is accepted where the script contains a reset.
     let mut steps: Vec<Step> = rec.asks.iter().map(|a| Step::Fail(a.decision)).collect();
     if rec.asks.len() == case.script.len() {
         steps.push(Step::Success);
     }
-    let exp = retry::interpret(N_NODES, &[false; N_NODES], case.cl0, &steps);
-    obs.downgraded = exp.attempts.iter().any(|(_, c)| *c != case.cl0);
-    let describe = || format!("script {script_names:?}, decisions {:?}: expected attempts (plan index, consistency) {:?} then {:?}; on the wire: {}", rec.asks.iter().map(|a| a.decision).collect::<Vec<_>>(), exp.attempts, exp.outcome, obs.trace["frames"]);
-    if exp.outcome == LoopOutcome::ScriptExhausted {
-        v!("loop:stopped-without-decision".into(), format!("attempt {} failed, the decisions so far demand another attempt, but the loop neither asked the policy about that failure nor went on; {}", rec.asks.len() + 1, describe()));
-        done!();
+    let mut variants: Vec<(&'static str, usize, Vec<bool>)> = vec![("plan-of-3", N_NODES, vec![false; N_NODES])];
+    if case.has_rst() {
+        variants.push(("reset-node-revisited-without-connection", N_NODES + 1, vec![false, false, false, true]));
+        variants.push(("reset-node-revisited-after-refill", N_NODES + 1, vec![false, false, false, false]));
     }
-    if frames.len() != exp.attempts.len() {
-        let key = if frames.len() > exp.attempts.len() { "loop:more-attempts-than-decided" } else { "loop:fewer-attempts-than-decided" };
-        v!(key.into(), format!("{} frames on the wire, the decisions taken allow exactly {}; {}", frames.len(), exp.attempts.len(), describe()));
-    } else {
-        for j in 0..frames.len() {
-            if frames[j].consistency != exp.attempts[j].1.code() {
-                v!("loop:consistency-on-wire-differs-from-decision".into(), format!("attempt {}: consistency {:?} on the wire; {}", j + 1, Cl::from_code(frames[j].consistency).map(|c| c.name()), describe()));
+    let mut first: Option<Vec<(String, String)>> = None;
+    let mut matched: Option<&'static str> = None;
+    for (label, plan_len, no_conn) in &variants {
+        let mut c: Vec<(String, String)> = Vec::new();
+        let exp = retry::interpret(*plan_len, no_conn, case.cl0, &steps);
+        let describe = || format!("script {script_names:?}, decisions {:?}: expected attempts (plan index, consistency) {:?} then {:?}; on the wire: {}", rec.asks.iter().map(|a| a.decision).collect::<Vec<_>>(), exp.attempts, exp.outcome, obs.trace["frames"]);
+        'cmp: {
+            if exp.outcome == LoopOutcome::ScriptExhausted {
+                c.push(("loop:stopped-without-decision".into(), format!("attempt {} failed, the decisions so far demand another attempt, but the loop neither asked the policy about that failure nor went on; {}", rec.asks.len() + 1, describe())));
+                break 'cmp;
             }
-            if j > 0 {
-                let same_expected = exp.attempts[j].0 == exp.attempts[j - 1].0;
-                let same_seen = frames[j].node == frames[j - 1].node;
-                if same_expected != same_seen {
-                    let key = if same_expected { "loop:same-target-retry-went-elsewhere" } else { "loop:next-target-retry-stayed" };
-                    v!(key.into(), format!("attempt {} -> {}: node {} -> node {}; {}", j, j + 1, frames[j - 1].node, frames[j].node, describe()));
+            if frames.len() != exp.attempts.len() {
+                let key = if frames.len() > exp.attempts.len() { "loop:more-attempts-than-decided" } else { "loop:fewer-attempts-than-decided" };
+                c.push((key.into(), format!("{} frames on the wire, the decisions taken allow exactly {}; {}", frames.len(), exp.attempts.len(), describe())));
+            } else {
+                for j in 0..frames.len() {
+                    if frames[j].consistency != exp.attempts[j].1.code() {
+                        c.push(("loop:consistency-on-wire-differs-from-decision".into(), format!("attempt {}: consistency {:?} on the wire; {}", j + 1, Cl::from_code(frames[j].consistency).map(|c| c.name()), describe())));
+                    }
+                    if j > 0 {
+                        let same_expected = exp.attempts[j].0 == exp.attempts[j - 1].0;
+                        let same_seen = frames[j].node == frames[j - 1].node;
+                        if same_expected != same_seen {
+                            let key = if same_expected { "loop:same-target-retry-went-elsewhere" } else { "loop:next-target-retry-stayed" };
+                            c.push((key.into(), format!("attempt {} -> {}: node {} -> node {}; {}", j, j + 1, frames[j - 1].node, frames[j].node, describe())));
+                        }
+                    }
+                    // a 4th target exists only as the re-visit of a node reset earlier in this request
+                    if exp.attempts[j].0 == N_NODES && !(0..j).any(|i| frames[i].node == frames[j].node && case.script.get(i).map(|s| s.name == "rst").unwrap_or(false)) {
+                        c.push(("loop:more-targets-than-plan".into(), format!("attempt {} went to a 4th target, node {}, which was not reset earlier in this request; {}", j + 1, frames[j].node, describe())));
+                    }
+                }
+            }
+            // result
+            let (want_err, want_rows): (Option<&str>, Vec<usize>) = match exp.outcome {
+                LoopOutcome::Success { .. } => (None, if case.api.is_paged() { vec![0, 1] } else { vec![] }),
+                LoopOutcome::IgnoredWrite { .. } => (None, (0..case.page).collect()),
+                LoopOutcome::LastAttemptError { attempt } => (Some(case.script[attempt].driver_name()), (0..case.page).collect()),
+                LoopOutcome::PoolError { .. } => (Some("ConnectionPoolError"), (0..case.page).collect()),
+                _ => (Some("?"), vec![]),
+            };
+            let got_err = out.err.as_deref().map(|e| e.split(':').next().unwrap_or(""));
+            if got_err != want_err {
+                let key = match (got_err, want_err) {
+                    (None, Some(_)) => "loop:success-reported-for-failed-request",
+                    (Some(_), None) => "loop:error-reported-for-successful-request",
+                    _ => "loop:wrong-error-reported",
+                };
+                c.push((key.into(), format!("the caller got {:?}, decided outcome {:?} means {want_err:?}; {}", out.err, exp.outcome, describe())));
+            }
+            let got_pages: Vec<usize> = out.rows.iter().filter_map(|(a, b)| (*a == id).then(|| b.rsplit("page").next()?.parse().ok()).flatten()).collect();
+            if got_pages != want_rows || out.rows.len() != want_rows.len() {
+                c.push(("loop:rows-differ-from-pages-served".into(), format!("the caller was handed rows {:?}; pages {want_rows:?} were served before the request ended ({:?})", out.rows, exp.outcome)));
+            }
+            // the un-scripted page of a paged call is fetched exactly once iff the call got that far
+            if case.api.is_paged() {
+                let want_other = match (case.page, exp.outcome) {
+                    (0, LoopOutcome::Success { .. }) => 1,
+                    (0, _) => 0,
+                    _ => 1,
+                };
+                if others.len() != want_other {
+                    c.push(("loop:unscripted-page-fetch-count".into(), format!("page {} was fetched {} times, expected {want_other}", 1 - case.page, others.len())));
                 }
             }
         }
-    }
-    // result
-    let (want_err, want_rows): (Option<&str>, Vec<usize>) = match exp.outcome {
-        LoopOutcome::Success { .. } => (None, if case.api.is_paged() { vec![0, 1] } else { vec![] }),
-        LoopOutcome::IgnoredWrite { .. } => (None, (0..case.page).collect()),
-        LoopOutcome::LastAttemptError { attempt } => (Some(case.script[attempt].driver_name()), (0..case.page).collect()),
-        _ => (Some("?"), vec![]),
-    };
-    let got_err = out.err.as_deref();
-    // DefaultPolicy appends the nodes it considers down to the END of its lazily evaluated plan: a node whose
-    // connection was reset earlier in this very request can come up a second time there (it has no connection, so
-    // nothing is sent); when the plan then runs out, the pool error of that target is the last error. Whether the
-    // pool has noticed the reset by then is a client-side race, so both results are accepted.
-    let plan_ran_out = matches!(exp.outcome, LoopOutcome::LastAttemptError { .. }) && matches!(rec.asks.last().map(|a| a.decision), Some(Decision::RetryNext(_)));
-    if got_err.map(|e| e.starts_with("ConnectionPoolError")).unwrap_or(false) && plan_ran_out && case.has_rst() {
-        obs.reset_node_revisited = true;
-    } else if got_err != want_err {
-        let key = match (got_err, want_err) {
-            (None, Some(_)) => "loop:success-reported-for-failed-request",
-            (Some(_), None) => "loop:error-reported-for-successful-request",
-            _ => "loop:wrong-error-reported",
-        };
-        v!(key.into(), format!("the caller got {got_err:?}, decided outcome {:?} means {want_err:?}; {}", exp.outcome, describe()));
-    }
-    let got_pages: Vec<usize> = out.rows.iter().filter_map(|(a, b)| (*a == id).then(|| b.rsplit("page").next()?.parse().ok()).flatten()).collect();
-    if got_pages != want_rows || out.rows.len() != want_rows.len() {
-        v!("loop:rows-differ-from-pages-served".into(), format!("the caller was handed rows {:?}; pages {want_rows:?} were served before the request ended ({:?})", out.rows, exp.outcome));
-    }
-    // the un-scripted page of a paged call is fetched exactly once iff the call got that far
-    if case.api.is_paged() {
-        let want_other = match (case.page, exp.outcome) {
-            (0, LoopOutcome::Success { .. }) => 1,
-            (0, _) => 0,
-            _ => 1,
-        };
-        if others.len() != want_other {
-            v!("loop:unscripted-page-fetch-count".into(), format!("page {} was fetched {} times, expected {want_other}", 1 - case.page, others.len()));
+        if c.is_empty() {
+            matched = Some(*label);
+            obs.downgraded = exp.attempts.iter().any(|(_, c)| *c != case.cl0);
+            break;
         }
+        if first.is_none() {
+            first = Some(c);
+        }
+    }
+    match matched {
+        Some(label) => obs.plan_variant = label,
+        None => viol.extend(first.unwrap_or_default()),
     }
     done!()
 }
@@ -409,13 +439,13 @@ fn main() {
         r.finish_replay();
     }
     let thorough = r.tier().is_thorough();
-    let max_len = r.args.extra_value("--len").and_then(|s| s.parse().ok()).unwrap_or(r.tier().pick(3, 4));
+    let max_len = r.args.extra_value("--len").and_then(|s| s.parse().ok()).unwrap_or(r.tier().pick(3, 5));
     let nsyms = r.tier().pick(QUICK_SYMS, THOROUGH_SYMS);
     let cfg = Cfg {
         max_len,
         syms: SYMS[..nsyms].to_vec(),
         consistencies: if thorough {
-            vec![(Cl::LocalQuorum, max_len), (Cl::Serial, max_len), (Cl::LocalSerial, max_len.min(3)), (Cl::EachQuorum, max_len.min(3)), (Cl::One, max_len.min(3))]
+            vec![(Cl::LocalQuorum, max_len), (Cl::Serial, max_len), (Cl::LocalSerial, max_len), (Cl::EachQuorum, max_len), (Cl::One, max_len)]
         } else {
             vec![(Cl::LocalQuorum, max_len), (Cl::Serial, max_len), (Cl::LocalSerial, 1)]
         },
@@ -486,8 +516,8 @@ fn main() {
                                     if case.has_rst() {
                                         rr.counters.add("cases_with_connection_reset", 1);
                                     }
-                                    if obs.reset_node_revisited {
-                                        rr.counters.add("plan_tail_revisited_the_reset_node_pool_error_returned", 1);
+                                    if obs.plan_variant != "plan-of-3" && !obs.plan_variant.is_empty() {
+                                        rr.counters.add(&format!("plan_{}", obs.plan_variant), 1);
                                     }
                                     if !case.idempotent && obs.frames >= 2 {
                                         rr.counters.add("nonidempotent_requests_resent_after_a_safe_failure", 1);
@@ -541,6 +571,7 @@ fn main() {
     r.counters.add("distinct_observable_outcomes", d.len() as u64);
     r.note("cases", json!(total_cases));
     r.note("max_script_length", json!(cfg.max_len));
+    r.note("script_tree_closed", json!(r.counters.get("scripts_at_length_bound_still_extendable") == 0 && !stop.load(Ordering::Relaxed)));
     r.note("alphabet", json!(cfg.syms.iter().map(|s| s.name).collect::<Vec<_>>()));
     r.note("initial_consistencies", json!(cfg.consistencies.iter().map(|(c, l)| format!("{} (scripts <= {l})", c.name())).collect::<Vec<_>>()));
     r.set_exhaustive(r.counters.get("cases_skipped_after_first_violation") == 0 && !stop.load(Ordering::Relaxed));
